@@ -5,6 +5,8 @@ import (
 	"go/ast"
 	"go/parser"
 	"go/types"
+	"os"
+	"strings"
 
 	"golang.org/x/tools/go/ssa"
 	"golang.org/x/tools/go/ssa/ssautil"
@@ -232,4 +234,41 @@ func init() {
 			}
 			return o.list
 		}})
+}
+
+// machrun <pkg>: evaluate every func Run*() string of a package of the loaded tree (REPO; e.g. a scratch
+// copy of /repo with a probe package added) on the machine. An aid for finding what the machine's models
+// do not cover; decides nothing.
+func init() {
+	extraCmds["machrun"] = func(args []string) int {
+		repo := "/repo"
+		if v := os.Getenv("REPO"); v != "" {
+			repo = v
+		}
+		c, err := Load(repo, "quick")
+		if err != nil {
+			fmt.Fprintln(os.Stderr, err)
+			return 2
+		}
+		sp := c.SSA[args[0]]
+		if sp == nil {
+			fmt.Fprintln(os.Stderr, "no package", args[0])
+			return 2
+		}
+		for _, mem := range sp.Members {
+			fn, ok := mem.(*ssa.Function)
+			if !ok || !strings.HasPrefix(fn.Name(), "Run") {
+				continue
+			}
+			m := newMach(c)
+			m.maxSteps = 5000000
+			r, out := m.Call(fn)
+			if out.kind != "ok" {
+				fmt.Printf("%s: %s: %s\n", fn.Name(), out.kind, out.why)
+				continue
+			}
+			fmt.Printf("%s: %s\n", fn.Name(), catRender(r))
+		}
+		return 0
+	}
 }
